@@ -10,7 +10,7 @@ import sys
 REPO = os.environ.get("VERIF_REPO", "/repo")
 sys.path.insert(0, REPO)
 import wpilib  # noqa: E402
-from wpilib.simulation import AnalogInputSim  # noqa: E402
+from wpilib.simulation import AnalogInputSim, RoboRioSim  # noqa: E402
 from robotpy_ext.common_drivers import units  # noqa: E402
 from robotpy_ext.common_drivers.pressure_sensors import REVAnalogPressureSensor  # noqa: E402
 from robotpy_ext.common_drivers.xl_max_sonar_ez import MaxSonarEZAnalog, MaxSonarEZPulseWidth  # noqa: E402
@@ -41,7 +41,15 @@ def main():
                 continue
             if d["base"] in U:
                 n, dn = d["factor"]
-                U[name] = units.Unit(U[d["base"]], (lambda x, n=n, dn=dn: x * n / dn), (lambda x, n=n, dn=dn: x * dn / n))
+                if name in ("u5", "u1"):
+                    # user units whose callables use units.convert() themselves (written in terms of the library's foot and
+                    # inch): convert() is entered again while a conversion is in progress - also in the middle of a chain
+                    # (u2 and u3 derive from u1)
+                    U[name] = units.Unit(U[d["base"]],
+                                         (lambda x, n=n, dn=dn: units.convert(units.inch, units.foot, x * 12.0) * n / dn),
+                                         (lambda x, n=n, dn=dn: units.convert(units.foot, units.inch, x) / 12.0 * dn / n))
+                else:
+                    U[name] = units.Unit(U[d["base"]], (lambda x, n=n, dn=dn: x * n / dn), (lambda x, n=n, dn=dn: x * dn / n))
                 del pending[name]
     press = {}
     chan = 0
@@ -122,6 +130,16 @@ def main():
                 c["_rt"] = units.convert(U[c["b"]], U[c["a"]], r)
                 c["_via"] = units.convert(U[c["b"]], U[c["c"]], r)
                 c["_direct"] = units.convert(U[c["a"]], U[c["c"]], v)
+            elif k == "deep":
+                chain = [units.Unit(base_unit=None, base_to_unit=lambda x: None, unit_to_base=lambda x: None)]
+                for j in range(c["n"]):
+                    f = 2.0 if j % 2 == 0 else 0.5
+                    chain.append(units.Unit(chain[-1], (lambda x, f=f: x * f), (lambda x, f=f: x / f)))
+                v = c["v"][0] / c["v"][1]
+                up = units.convert(chain[-1], chain[0], v)
+                r = units.convert(chain[0], chain[-1], up)
+                if up != v:
+                    r = up          # (the comparison below reports it)
             elif k == "sonar_pw":
                 if c["b"] not in sonar_pw:
                     s = MaxSonarEZPulseWidth(len(sonar_pw), U[c["b"]])
@@ -141,6 +159,8 @@ def main():
                     sonar_an[c["b"]] = (s, AnalogInputSim(s.analog))
                 s, sim = sonar_an[c["b"]]
                 tgt = c["mv"][0] / c["mv"][1] / 1000.0
+                # (the documented scale is 4.9 mV per cm whatever the roboRIO's 5 V rail happens to measure)
+                RoboRioSim.setUserVoltage5V([5.0, 4.8, 5.1][len(out) % 3])
                 for j in range(5, 0, -1):      # a slowly drifting input, far less than one ADC step per sample
                     sim.setVoltage(tgt + j * 0.0003)
                     s.get()
